@@ -11,6 +11,7 @@ import (
 	"encoding/base64"
 	"errors"
 	"net/http"
+	"net/url"
 
 	ct "github.com/google/certificate-transparency-go"
 	"github.com/google/certificate-transparency-go/x509"
@@ -195,7 +196,18 @@ func Harness_C08_wrapper() {
 	w := &envWriter{}
 	r := envGet(nil)
 	r.Method = reqMethod
+	// a query string with a pair that does not parse (in a parameter no handler reads)
+	badQuery := vChoice("malformed-query", 2) == 1
+	if badQuery {
+		r.Form = nil
+		r.URL = &url.URL{Path: "/log/ct/v1/get-sth", RawQuery: []string{"first=1&second=2&x=%zz", "%zz", "pad=%"}[vChoice("query", 3)]}
+	}
 	h.ServeHTTP(w, r)
+	if reqMethod == method && method == http.MethodGet && badQuery {
+		vAssert(called == 0 && w.status == http.StatusBadRequest, "a malformed parameter string is rejected with 400 before the handler (and any backend call)")
+		vReach("handled")
+		return
+	}
 	if reqMethod != method {
 		vAssert(called == 0, "wrong method rejected before the handler")
 		vAssert(w.status == http.StatusMethodNotAllowed, "wrong method gives 405")
@@ -264,4 +276,74 @@ func Harness_C08_getRoots() {
 		vAssert(bytes.Equal(served[i], ders[i]), "each entry is that certificate's DER, in pool order")
 	}
 	vReach("served")
+}
+
+type c08MirrorStore struct {
+	sth   *ct.SignedTreeHead
+	err   error
+	calls int
+	max   int64
+}
+
+func (s *c08MirrorStore) GetMirrorSTH(_ context.Context, maxTreeSize int64) (*ct.SignedTreeHead, error) {
+	s.calls++
+	s.max = maxTreeSize
+	return s.sth, s.err
+}
+
+// Harness_C08_getSTHMirror: get-sth on a mirror (MirrorSTHGetter): a backend error keeps its
+// status class (429 / 503 / 504 for quota, unavailability and timeouts, 4xx for caller-caused, 5xx
+// otherwise), a missing or garbled tree head or a failing mirror STH store gives a non-200, and a
+// good reply serves the store's STH, which was asked for with the backend's tree size as bound.
+//
+//verif:opt maxpaths=6000 reach=ok200,fault
+func Harness_C08_getSTHMirror() {
+	be, rl := &envBackend{}, &envReqLog{}
+	li := envLogInfo(be, rl)
+	st := &c08MirrorStore{sth: &ct.SignedTreeHead{TreeSize: vU64("mirror-size"), Timestamp: vU64("mirror-ts")}}
+	li.sthGetter = &MirrorSTHGetter{li: li, st: st}
+	fault := []int{fOK, fErrStatus, fErrPlain, fRootMissing, fRootGarbled}[vChoice("fault", 5)]
+	storeFails := vChoice("store-fails", 2) == 1
+	if storeFails {
+		st.sth, st.err = nil, errors.New("no mirrored tree head yet")
+	}
+	var code codes.Code
+	size := vU64("tree-size")
+	vAssume(size < 1<<62)
+	var rootHash []byte
+	be.latestRoot = func(in *trillian.GetLatestSignedLogRootRequest) (*trillian.GetLatestSignedLogRootResponse, error) {
+		switch fault {
+		case fErrStatus, fErrPlain:
+			err, c := envBackendErr(fault == fErrPlain)
+			code = c
+			return nil, err
+		}
+		rsp := &trillian.GetLatestSignedLogRootResponse{}
+		switch fault {
+		case fRootMissing:
+		case fRootGarbled:
+			rsp.SignedLogRoot = &trillian.SignedLogRoot{LogRoot: vBytes("junk", 2)}
+		default:
+			rsp.SignedLogRoot = envRootTS(size, 32, 5, &rootHash)
+		}
+		return rsp, nil
+	}
+	w := &envWriter{}
+	status, err := getSTH(context.Background(), li, w, envGet(nil))
+	vAssert((status == http.StatusOK) == (err == nil), "status 200 iff no error")
+	if fault != fOK {
+		envCheckFaultStatus(status, fault, code)
+		vAssert(st.calls == 0 && w.writes == 0, "no STH is served on a backend fault")
+		vReach("fault")
+		return
+	}
+	vAssert(st.calls == 1 && st.max == int64(size), "the mirror store is asked for a head no larger than the backend's tree")
+	if storeFails {
+		vAssert(status != http.StatusOK && status >= 400 && w.writes == 0, "a failing mirror STH store never surfaces as success")
+		vReach("fault")
+		return
+	}
+	var got ct.GetSTHResponse
+	vAssert(status == http.StatusOK && vJSONDecode(w.body, &got) == nil && got.TreeSize == st.sth.TreeSize && got.Timestamp == st.sth.Timestamp, "the mirrored tree head is served")
+	vReach("ok200")
 }
